@@ -233,7 +233,7 @@ impl Prop for C16 {
                 }
             }
             let mut seqs = vec![];
-            rec2(&alpha, if tier == Tier::Quick { 4 } else { 5 }, &mut vec![], &mut seqs);
+            rec2(&alpha, if tier == Tier::Quick { 4 } else { 6 }, &mut vec![], &mut seqs);
             for keys in [(2usize, 3usize), (0, 1), (2, 2)] {
                 for s in &seqs {
                     cs.push(Case::Interleaved { keys, ops: s.clone() });
@@ -252,7 +252,7 @@ impl Prop for C16 {
         json!({"idx": idx, "case": self.cases[idx as usize], "keys": keys().iter().map(|k| hex(k)).collect::<Vec<_>>()})
     }
     fn rule(&self) -> String {
-        "cases: [sequence] every sequence of <=3 (<=4 thorough; thorough also every sequence of 5 and 6 operations with len in {0,1,16,256}) operations over {wrap(len), unwrap(peer-sealed len)} with len in {0,1,2,3,15,16,17,255,256,1000}, for 5 exported session keys, on the context built by the public constructor and (sequences <=2) on the one built by a real NEGOTIATE/CHALLENGE handshake (for every second session key the same Ntlm object has completed an earlier handshake, with another key, before): every wrap output must be byte-identical to reference MS-NLMP SEAL+SIGN with carried-over cipher state and sequence numbers, every unwrap must return the plaintext; contexts carrying 66 000 messages in each direction; every tampered message is refused (and when the alteration sits in the checksum, the sequence number or the ciphertext, the peer's next genuine message still unseals on a context that saw the same traffic), refused again when presented a second time to the same context, and so are a following message extended by 1 / 3 / 16 bytes or cut by one; two contexts (different or equal session keys) alive at the same time on one thread taking turns, every sequence of 2..4 (5 thorough) operations over {A, B} x {wrap, unwrap} x {1, 16} bytes and 300 rounds; plus long-lived contexts (300 wraps, 300 unwraps, 600 alternating, 260 unwraps then 260 wraps: the sequence numbers pass 256 in each direction) and messages of 65519..200000 bytes followed by further traffic; every length 0..1100 and 2^k-5..2^k+4 (k = 11..16) sealed / unsealed / both in one context; [tamper] for every peer-sealed message of length 0..17, 100, 256 at stream position 0 and 1: every single-bit flip, truncations, extensions by 1..3 bytes, reflection, rewritten sequence numbers: all must be rejected. Non-trivial: sequences of >=2 operations and all tamper cases.".into()
+        "cases: [sequence] every sequence of <=3 (<=4 thorough; thorough also every sequence of 5 and 6 operations with len in {0,1,16,256}) operations over {wrap(len), unwrap(peer-sealed len)} with len in {0,1,2,3,15,16,17,255,256,1000}, for 5 exported session keys, on the context built by the public constructor and (sequences <=2) on the one built by a real NEGOTIATE/CHALLENGE handshake (for every second session key the same Ntlm object has completed an earlier handshake, with another key, before): every wrap output must be byte-identical to reference MS-NLMP SEAL+SIGN with carried-over cipher state and sequence numbers, every unwrap must return the plaintext; contexts carrying 66 000 messages in each direction; every tampered message is refused (and when the alteration sits in the checksum, the sequence number or the ciphertext, the peer's next genuine message still unseals on a context that saw the same traffic), refused again when presented a second time to the same context, and so are a following message extended by 1 / 3 / 16 bytes or cut by one; two contexts (different or equal session keys) alive at the same time on one thread taking turns, every sequence of 2..4 (6 thorough) operations over {A, B} x {wrap, unwrap} x {1, 16} bytes and 300 rounds; plus long-lived contexts (300 wraps, 300 unwraps, 600 alternating, 260 unwraps then 260 wraps: the sequence numbers pass 256 in each direction) and messages of 65519..200000 bytes followed by further traffic; every length 0..1100 and 2^k-5..2^k+4 (k = 11..16) sealed / unsealed / both in one context; [tamper] for every peer-sealed message of length 0..17, 100, 256 at stream position 0 and 1: every single-bit flip, truncations, extensions by 1..3 bytes, reflection, rewritten sequence numbers: all must be rejected. Non-trivial: sequences of >=2 operations and all tamper cases.".into()
     }
     fn assumptions(&self) -> Vec<String> {
         vec![
